@@ -202,6 +202,37 @@ def record_scale_trace(spec):
     return {"meta": dict(spec), "c": {"budget": budget}, "ev": ev}
 
 
+def record_fres_trace(spec):
+    """A single-bin analysis requested by resolution (fs/fres not an integer): the statistics the bin is built from against the
+    definition evaluated at the REQUESTED frequency with the segmentation the result reports."""
+    import speckit
+    rng = np.random.default_rng(spec["seed"])
+    N, order, mode, backend = spec["N"], spec["order"], spec["mode"], spec["backend"]
+    x = rng.standard_normal(N)
+    y = 0.5 * x + rng.standard_normal(N)
+    fs = spec["fs"]
+    freq = spec["fbin"] * fs / spec["Lreq"]
+    data = x if mode == "auto" else np.vstack([x, y])
+    a = speckit.SpectrumAnalyzer(data, fs, order=order, win="hann", olap=0.5, backend=backend)
+    r = a.compute_single_bin(freq, fres=fs / (spec["Lreq"] + spec["delta"]))
+    L = int(r.L[0])
+    starts = np.asarray(r.D[0], dtype=np.int64)
+    w = np.ascontiguousarray(np.hanning(L), dtype=np.float64)
+    om = 2.0 * math.pi * freq / fs
+    ref = _definition(x, y, starts, L, w, om, order, mode)
+    got = (float(r.XX[0]), float(r.YY[0]) if mode == "csd" else float(r.XX[0]), float(np.real(r.XY[0])), float(np.imag(r.XY[0])) if mode == "csd" else 0.0, float(r.M2[0]))
+    if mode == "auto":
+        got = (got[0], got[0], got[0], 0.0, got[4])
+    s_ = max(ref[0], ref[1])
+    bx = float(np.sum(np.abs(w))) * float(np.max(np.abs(x)))
+    by = bx if mode == "auto" else float(np.sum(np.abs(w))) * float(np.max(np.abs(y)))
+    budget = int(min(10 ** 6, math.ceil(2 ** 20 * 2.0 * bx * by * 8 * 2.2e-16 * L * L / s_)))
+    K = int(starts.size)
+    ev = [{"b": b, "mode": mode, "K": K, "m2r": -1, "q": [traces.q(g[0] / s_), traces.q(g[1] / s_), traces.q(g[2] / s_), traces.q(g[3] / s_), traces.q(g[4] / (s_ * s_))]}
+          for b, g in (("definition", ref), ("single_bin_by_resolution_" + backend, got))]
+    return {"meta": dict(spec, K=K, L=L), "c": {"budget": budget}, "ev": ev}
+
+
 def scale_specs(tier, seed):
     rnd = random.Random(1000 + seed)
     n = 160 if tier == "quick" else 1500
@@ -321,6 +352,12 @@ def run(tier: str) -> int:
         trs = common.pmap(record_scale_trace, specs, chunksize=4)
     finally:
         os.environ.pop("NUMBA_ENABLE_CUDASIM", None)
+    # single-bin requests by resolution (the analysis frequency is the requested one, whatever bin number is reported)
+    rndf = random.Random(sd + 77)
+    fspecs = [dict(seed=rndf.randrange(2 ** 31), N=rndf.choice([3000, 6000]), fs=rndf.choice([1.0, 250.0]), Lreq=rndf.choice([64, 100, 333]),
+                   delta=rndf.choice([-0.45, -0.3, 0.3, 0.45]), fbin=rndf.uniform(8.0, 20.0), order=[-1, 0, 1, 2][k % 4], mode=["csd", "auto"][k % 2],
+                   backend=["numba", "numpy"][(k // 2) % 2]) for k in range(8 if tier == "quick" else 48)]
+    trs = trs + common.pmap(record_fres_trace, fspecs, chunksize=2)
     kept = [t for t in trs if t["ev"] and t["c"]["budget"] <= 1024]
     V.set("scale_traces_dropped_ill_conditioned", len(trs) - len(kept))
     V.set("scale_traces_with_K_above_8192", sum(1 for t in kept if t["meta"]["K"] > 8192))
